@@ -34,6 +34,7 @@ type Contract struct {
 	Mode       Mode
 	Tags       string // extra build tags the body must be loaded with ("" or "purego")
 	Requires   []*Clause
+	BoundedReq []*Clause // boundedrequires: extra admissibility condition of the bounded stand-in only (what call sites establish)
 	Axiomatize []*Clause // definitional axioms of uninterpreted spec functions, assumed at entry (listed as assumptions)
 	Ensures    []*Clause
 	Invariants []*Clause
@@ -344,6 +345,12 @@ func ParseContractFile(path, pkg string) (*ContractFile, error) {
 				cur.Mode = parseMode(rest)
 			case "tags":
 				cur.Tags = rest
+			case "boundedrequires":
+				c, err := mkClause(word, false)
+				if err != nil {
+					return nil, err
+				}
+				cur.BoundedReq = append(cur.BoundedReq, c)
 			case "axiomatize":
 				c, err := mkClause(word, false)
 				if err != nil {
@@ -407,6 +414,8 @@ func ParseContractFile(path, pkg string) (*ContractFile, error) {
 				cur.NoOverflow = true
 			case "nosafety":
 				cur.NoPanicOff = true
+			case "bounded":
+				cur.Bounded = "yes"
 			case "nopre":
 				cur.NoPre = true
 			case "assert":
